@@ -26,7 +26,7 @@ ASSUMPTIONS = [
 
 
 def cases(tier):
-    return 600 if tier == "quick" else 30000
+    return 5000 if tier == "quick" else 120000
 
 
 def floors(tier):
